@@ -1,5 +1,5 @@
 (* Props/C10.v - property theorems of C10: statements from Spec/StatementsEv.v, proofs from Proofs/C10Proofs.v. *)
-Require Import Boario.Spec.StatementsEv Boario.Proofs.C10Proofs.
+Require Import Boario.Spec.StatementsEv Boario.Proofs.C10Proofs Boario.Proofs.C10SessionProofs.
 Theorem C10_activate_holds : C10_activate. Proof. exact c10_activate. Qed.
 Print Assumptions C10_activate_holds.
 Theorem C10_start_holds : C10_start. Proof. exact c10_start. Qed.
@@ -10,3 +10,9 @@ Theorem C10_step_monotone_holds : C10_step_monotone. Proof. exact c10_step_monot
 Print Assumptions C10_step_monotone_holds.
 Theorem C10_prefix_holds : C10_prefix. Proof. exact c10_prefix. Qed.
 Print Assumptions C10_prefix_holds.
+Theorem C10_session_holds : C10_session. Proof. exact c10_session. Qed.
+Print Assumptions C10_session_holds.
+Theorem C10_late_registration_holds : C10_late_registration. Proof. exact c10_late_registration. Qed.
+Print Assumptions C10_late_registration_holds.
+Theorem C10_late_registration_any_id_refuted : ~ C10_late_registration_any_id. Proof. exact c10_late_registration_any_id_refuted. Qed.
+Print Assumptions C10_late_registration_any_id_refuted.
